@@ -47,7 +47,9 @@ listen_dep  yes      Only passive communication mode
 import nfc.clf
 from . import device
 
+import os
 import time
+import errno
 import struct
 import operator
 from functools import reduce
@@ -71,6 +73,8 @@ class Frame(object):
                 self._type = "err"
             elif frame[3:5] == bytearray(b"\xff\xff"):
                 self._type = "data"
+            if self.type == "data" and len(frame) < 10:
+                self._type = None  # incomplete frame
             if self.type == "data":
                 length = struct.unpack("<H", bytes(frame[5:7]))[0]
                 self._data = frame[8:8+length]
@@ -214,7 +218,7 @@ class Chipset(object):
             ack = Frame(self.transport.read())
             if ack.type == 'ack':
                 rsp = Frame(self.transport.read())
-                if rsp.type == 'data':
+                if rsp.type == 'data' and len(rsp.data) >= 2:
                     if rsp.data[0] == 0xD7 and rsp.data[1] == cmd_code + 1:
                         return rsp.data[2:]
                     else:
@@ -264,6 +268,9 @@ class Chipset(object):
         timeout = min((timeout + (1 if timeout > 0 else 0)) * 10, 0xFFFF)
         data = self.send_command(0x04,
                                  struct.pack("<H", timeout) + bytes(data))
+        if data and len(data) < 4:
+            log.error("insufficient response data for in_comm_rf")
+            return None
         if data and tuple(data[0:4]) != (0, 0, 0, 0):
             raise CommunicationError(data[0:4])
         return data[5:] if data else None
@@ -921,8 +928,6 @@ class Device(device.Device):
             timeout_msec = max(min(int(timeout * 1000), 0xFFFF), 1)
         else:
             timeout_msec = 0
-        self.chipset.in_set_rf(target.brty_send, target.brty_recv)
-        self.chipset.in_set_protocol(self.chipset.in_set_protocol_defaults)
         in_set_protocol_settings = {}
         if target.brty_send.endswith('A'):
             in_set_protocol_settings['add_parity'] = 1
@@ -934,20 +939,30 @@ class Device(device.Device):
             in_set_protocol_settings['add_eof'] = 1
             in_set_protocol_settings['check_eof'] = 1
         try:
+            self.chipset.in_set_rf(target.brty_send, target.brty_recv)
+            self.chipset.in_set_protocol(
+                self.chipset.in_set_protocol_defaults)
             if ((target.brty == '106A' and target.sel_res and
                  target.sel_res[0] & 0x60 == 0x00)):
                 # Driver must check TT2 CRC to get ACK/NAK
                 in_set_protocol_settings['check_crc'] = 0
                 self.chipset.in_set_protocol(**in_set_protocol_settings)
-                return self._tt2_send_cmd_recv_rsp(data, timeout_msec)
+                rsp = self._tt2_send_cmd_recv_rsp(data, timeout_msec)
             else:
                 self.chipset.in_set_protocol(**in_set_protocol_settings)
-                return self.chipset.in_comm_rf(data, timeout_msec)
+                rsp = self.chipset.in_comm_rf(data, timeout_msec)
         except CommunicationError as error:
             log.debug(error)
             if error == "RECEIVE_TIMEOUT_ERROR":
                 raise nfc.clf.TimeoutError
             raise nfc.clf.TransmissionError
+        except StatusError as error:
+            log.debug(error)
+            raise nfc.clf.TransmissionError(str(error))
+        if rsp is None:
+            # the chipset did not answer the command as expected
+            raise IOError(errno.EIO, os.strerror(errno.EIO))
+        return rsp
 
     def _tt2_send_cmd_recv_rsp(self, data, timeout_msec):
         # The Type2Tag implementation needs to receive the Mifare
@@ -955,6 +970,8 @@ class Device(device.Device):
         # (indistinguishable from a real crc error). We thus had to
         # switch off the crc check and do it here.
         data = self.chipset.in_comm_rf(data, timeout_msec)
+        if data is None:
+            return None
         if len(data) > 2 and self.check_crc_a(data) is False:
             raise nfc.clf.TransmissionError("crc_a check error")
         return data[:-2] if len(data) > 2 else data
